@@ -252,7 +252,7 @@ def newDeposits (c : Crypto) (rel : Relayer.State) (s : State) (m : NewDepositsM
       let rec go : List Deposit → State → List DepositReceipt → Outcome (State × List DepositReceipt)
         | [], s, acc => .ok (s, acc.reverse)
         | d :: rest, s, acc =>
-          if !d.validate then .err "deposit-validate"
+          if !d.validate then .err "validate"
           else match verifyDeposit c rel' s headers d with
           | .err e => .err e
           | .panic e => .panic e
